@@ -25,6 +25,8 @@ from runtime.harness import Case, import_fastparquet, tmpdir
 G = "c09.model"
 
 # ==== core begin
+import re
+
 C09_COLS = ["f", "p", "q", "s", "x"]
 # frame alphabet: name -> list of (p, q) per row; x ids are made unique per step
 C09_FRAMES = {
